@@ -5,16 +5,20 @@
 int verif_thrown; bool verif_may_throw;
 
 /* ---- stub: GMP integer / rational, assumed contracts:
-        integer_class: == and < are those of the mathematical integer (here: a 64-bit word);
+        integer_class: == and < are those of the mathematical integer (here: a 128-bit word, so that values beyond one limb exist);
         mp_get_ui = low bits of |x|, mp_get_si = low bits of x, mp_sign = sign;
         rational_class: == compares canonical (num, den); < is a strict total order consistent with ==
         (ghost 'rank': harness assumes rank equal <=> (num,den) equal).                                  */
-struct integer_class { long v; };
+struct integer_class { __int128 v; };
 inline bool operator==(const integer_class &a, const integer_class &b) { return a.v == b.v; }
 inline bool operator<(const integer_class &a, const integer_class &b) { return a.v < b.v; }
-inline unsigned long mp_get_ui(const integer_class &x) { return x.v < 0 ? 0ul - (unsigned long)x.v : (unsigned long)x.v; }
-inline long mp_get_si(const integer_class &x) { return x.v; }
+inline bool operator>(const integer_class &a, const integer_class &b) { return a.v > b.v; }
+/* GMP: mpz_get_ui = least significant limb of |x|; mpz_get_si = the same limb with the sign of x (truncating); fits tests */
+inline unsigned long mp_get_ui(const integer_class &x) { unsigned __int128 m = x.v < 0 ? (unsigned __int128)0 - (unsigned __int128)x.v : (unsigned __int128)x.v; return (unsigned long)m; }
+inline long mp_get_si(const integer_class &x) { unsigned long lo = mp_get_ui(x) & 0x7ffffffffffffffful; return x.v < 0 ? (long)(0ul - lo) : (long)lo; }
 inline int mp_sign(const integer_class &x) { return x.v < 0 ? -1 : (x.v > 0 ? 1 : 0); }
+inline bool mp_fits_slong_p(const integer_class &x) { return x.v >= -((__int128)1 << 63) && x.v < ((__int128)1 << 63); }
+inline bool mp_fits_ulong_p(const integer_class &x) { return x.v >= 0 && x.v < ((__int128)1 << 64); }
 struct rational_class { integer_class num, den; long rank; };
 inline bool operator==(const rational_class &a, const rational_class &b) { return a.num.v == b.num.v && a.den.v == b.den.v; }
 inline bool operator<(const rational_class &a, const rational_class &b) { return a.rank < b.rank; }
